@@ -172,4 +172,8 @@ func TestVerifC04Profiles(t *testing.T) {
 	for i := 0; i < vBudget(20, 10); i++ {
 		c04One(out, sg, g, 1, 2)
 	}
+	// a profile without samples at the head while nothing fits (the isolation step must look past it)
+	for i := 0; i < vBudget(30, 10); i++ {
+		c04One(out, sg, g, 1, 4)
+	}
 }
